@@ -299,6 +299,7 @@ pub fn run_exmodel(a: &Args) {
         if parts[0].trim() == "talentsched" { let imp = crate::exm_talentsched::replay(&parts); out.case_tagged(r, &imp, "replay"); out.finish(); return; }
         if parts[0].trim() == "lcs" { let imp = crate::exm_lcs::replay(&parts); out.case_tagged(r, &imp, "replay"); out.finish(); return; }
         if parts[0].trim() == "tsptw" { let imp = crate::exm_tsptw::replay(&parts); out.case_tagged(r, &imp, "replay"); out.finish(); return; }
+        if parts[0].trim() == "sop" { let imp = crate::exm_sop::replay(&parts); out.case_tagged(r, &imp, "replay"); out.finish(); return; }
         if parts[0].trim() == "alp" { let imp = crate::exm_alp::replay(&parts); out.case_tagged(r, &imp, "replay"); out.finish(); return; }
         if parts[0].trim() == "misp" {
             let imp = replay_misp(&parts);
@@ -338,5 +339,6 @@ pub fn run_exmodel(a: &Args) {
     crate::exm_talentsched::generate(&mut out, &mut rng, if a.thorough { 6000 } else { 600 });
     crate::exm_lcs::generate(&mut out, &mut rng, if a.thorough { 6000 } else { 600 });
     crate::exm_tsptw::generate(&mut out, &mut rng, if a.thorough { 6000 } else { 600 });
+    crate::exm_sop::generate(&mut out, &mut rng, if a.thorough { 6000 } else { 600 });
     out.finish();
 }
